@@ -6,7 +6,7 @@ import Aiorpcx.C08.Model
          stubborn / closing / aborting / reply-and-disconnect handler; `D` closes with the
          default force_after after replying) `NQ i` `NW i` (notifications) `BT i j` (batch
          [waiting, quick]) `F i` `O k` `OB k` (request / batch) `ON k` (notification: no waiter)
-         `R k` `L` `AC c fa` `ACC c d fa` `ACT c fa` `AB` `A dt`
+         `R k` `L` `LE` (peer closed / link broke) `AC c fa` `ACC c d fa` `ACT c fa` `AB` `A dt`
     out: per event `hook=.. closed=.. live=.. tickets=.. closers=.. aborts=.. now=.. closing=..`,
          separated by ` ; ` -/
 open Aiorpcx Aiorpcx.C08
@@ -28,6 +28,7 @@ def parseEvent (dfa : Nat) (s : String) : Option (List Event) :=
   | ["O", k] => do pure [.outgoing (← k.toNat?)]
   | ["R", k] => do pure [.answer (← k.toNat?)]
   | ["L"] => some [.drop]
+  | ["LE"] => some [.drop]
   | ["AC", c, fa] => do pure [.appClose (← c.toNat?) (← fa.toNat?)]
   | ["ACC", c, d, fa] => do
       let f ← fa.toNat?
